@@ -114,12 +114,19 @@ def bind_sweep(tier="quick", seed=0):
                         want.pop("self", None)
                     except TypeError as e:
                         want = None
+                    passed_args, passed_kw = list(args), dict(kwargs)
                     try:
-                        got = dict(fdef.bind_args(list(args), dict(kwargs))._scope)
+                        got = dict(fdef.bind_args(passed_args, passed_kw)._scope)
                         if kind == "method":
                             got.pop("self", None)
                     except Exception as e:
                         got = None
+                    if got is not None and (passed_args != args or passed_kw != kwargs):
+                        # frame: a call does not consume the caller's argument containers (the front end passes ONE
+                        # keyword dict first to a user-defined __new__ and then to __init__)
+                        key = "modifies the argument containers it was called with"
+                        fails.setdefault(key, f"{kind} `{render('f', s).splitlines()[0].strip()}` called with {npos_args} positional and keywords {list(kws)}: "
+                                              f"after bind_args the caller's containers are {passed_args} / {passed_kw} (passed {args} / {kwargs})")
                     if want is None and got is None:
                         continue
                     ok = want is not None and got is not None and all(k in got and got[k] == v for k, v in want.items())
